@@ -309,4 +309,38 @@ def build(ctx):
     c06obs = {o.id: o for o in c06.build(ctx06)}
     src = c06obs["dak.every_return_is_a_root"]
     obs.append(Obligation("dep." + src.id, "[contract relied upon, C06] " + src.statement, src.run, src.functions, src.backend, src.replay))
+    # 'at every pressure' includes a whole column of pressures handed over as an array: the oil identities above are proved for a
+    # scalar pressure; C11's contract (array call == scalar call element by element, floating result, caller's array not written) for
+    # density_Standing and the two functions it composes carries them to arrays.  Re-verified here on an engine of its own.
+    from . import c11
+    ctx11 = Ctx("C07", ctx.tier, ctx.seed)
+    c11obs = {o.id: o for o in c11.build(ctx11)}
+
+    def rho_bo_array_replay(w):
+        import numpy as np
+        dens, bo, rs, pbf = real(OIL + "density_Standing"), real(OIL + "b_o_Standing"), real(OIL + "solution_gor_Standing"), real(OIL + "pressure_bubblepoint_Standing")
+        for (T_, api_, gg_, R_) in ((200.0, 35.0, 0.8, 650.0), (150.0, 30.0, 0.9, 300.0), (250.0, 42.0, 0.75, 1100.0)):
+            pb = float(pbf(T_, api_, gg_, R_))
+            grid = np.array([0.2 * pb, 0.6 * pb, 0.99 * pb, 1.02 * pb, 1.5 * pb, 2.4 * pb], dtype=float)
+            for arr in (grid.copy(), grid[::-1].copy()):
+                keep = arr.copy()
+                d = np.asarray(dens(T_, arr, api_, gg_, R_), dtype=float)
+                if not np.array_equal(arr, keep):
+                    return {"reproduced": True, "input": {"T": T_, "api": api_, "gg": gg_, "R": R_, "pressure": keep.tolist()}, "observed": {"caller's pressure array after density_Standing": arr.tolist()}, "required": "unchanged"}
+                for k_, p_ in enumerate(keep):
+                    want = 62.37 * 141.5 / (131.5 + api_) + 0.0136 * gg_ * float(rs(T_, float(p_), api_, gg_, R_))
+                    got = d[k_] * float(bo(T_, float(p_), api_, gg_, R_))
+                    if not abs(got - want) <= 1e-9 * want:
+                        return {"reproduced": True, "input": {"T": T_, "api": api_, "gg": gg_, "R": R_, "pressure": keep.tolist(), "element": k_}, "observed": {"density_Standing(array)[k] * Bo(p_k)": float(got)}, "required": {"62.37 gamma_o + 0.0136 gamma_g Rs(p_k)": want}}
+        return {"reproduced": False}
+
+    for oid in ("oil.density_Standing.elementwise[float64]", "oil.density_Standing.result", "oil.b_o_Standing.elementwise[float64]", "oil.solution_gor_Standing.elementwise[float64]", "oil.solution_gor_Standing.result"):
+        src = c11obs[oid]
+
+        def both(w, a=src.replay):
+            r1 = rho_bo_array_replay(w)
+            if r1.get("reproduced"):
+                return r1
+            return a(w) if a else r1
+        obs.append(Obligation("dep." + src.id, "[contract relied upon, C11: carries the oil identities from a scalar pressure to an array of pressures] " + src.statement, src.run, src.functions, src.backend, both))
     return obs
